@@ -279,7 +279,8 @@ def sanitize_trace(path):
         if isinstance(v, list):
             return [fix(x) for x in v]
         if isinstance(v, dict):
-            return {k: fix(x) for k, x in v.items()}
+            # an absent record-valued member becomes the empty record (a record cannot be compared with a string)
+            return {k: ({} if (x is None and k in ("output",)) else fix(x)) for k, x in v.items()}
         return v
     lines = []
     with open(path) as f:
